@@ -169,6 +169,7 @@ static void far_section(void) {
 int main(int argc, char **argv) {
     vh_init(argc, argv);
     vh_sandbox_init();
+    vh_watchdog(60); /* a library call that makes no progress for a whole period is reported as a hang */
     vh_gb_init(0, 1 << 12);
     static uint64_t vals[70000];
     static const uint8_t bgs[4] = {0x00, 0xff, 0x55, 0xaa};
